@@ -26,7 +26,7 @@ BOUNDS = {
     "quick": "n = 2..4 candidates (ties allowed: qualities are unconstrained reals); array and dict inputs; base measures absent / dict with other "
              "insertion order and extra keys; both monotonic values; mwem worst_approximated with distinct and repeated cliques, bounded x penalty; "
              "scale helpers for bounded in {False, True}",
-    "thorough": "quick + n = 5, three dict orders, 3-clique workloads",
+    "thorough": "quick + n = 5, 6, three dict orders, workloads of up to 5 cliques incl. triple repeats",
 }
 OUTSIDE = ("'well defined for scores of huge magnitude' (float overflow; scipy's stabilised softmax is replaced by its definition); "
            "generalized_exponential_mechanism's score transformation; permute_and_flip; autodp's calibration (stubbed)")
@@ -283,7 +283,7 @@ def scale_scenario(cfg):
 
 def configs(tier, seed):
     cfgs = []
-    ns = [2, 3, 4] + ([5] if tier == "thorough" else [])
+    ns = [2, 3, 4] + ([5, 6] if tier == "thorough" else [])
     for n in ns:
         cfgs.append(dict(name="em:array:n%d" % n, kind="em", form="array", n=n, base=False, cost=n))
         cfgs.append(dict(name="em:dict:n%d" % n, kind="em", form="dict", n=n, base=False, cost=n))
@@ -297,6 +297,8 @@ def configs(tier, seed):
     wls = [[("a", "b"), ("b", "c")], [("a", "b"), ("a", "b"), ("c",)], [("c",), ("a",), ("c",), ("b", "c")]]
     if tier == "thorough":
         wls.append([("a", "b"), ("b", "c"), ("a", "c")])
+        wls.append([("a",), ("b",), ("c",), ("a", "b"), ("b", "c")])
+        wls.append([("b", "c"), ("b", "c"), ("b", "c"), ("a",)])
     for wi, wl in enumerate(wls):
         for bounded in (False, True):
             for penalty in (False, True):
